@@ -228,27 +228,64 @@ def render_cmd(c, exprs):
     raise ValueError(k)
 
 
-def render_nodes(nodes, exprs, void):
+def _ref(c, var):
+    """spelling of a markup character in text / attribute values for variant `var`"""
+    if var == 1:
+        return "&#%d;" % ord(c)
+    if var == 2:
+        return "&#x%X;" % ord(c)
+    return {"&": "&amp;", "<": "&lt;", ">": "&gt;", '"': "&quot;", "'": "&apos;"}[c]
+
+
+def _text(t, var):
+    if var == 0:
+        return html.escape(t, quote=False)
     out = []
-    for nd in nodes:
-        if nd["k"] == "text":
-            out.append(html.escape(nd["text"], quote=False))
-        elif nd["k"] == "raw":
-            out.append(nd["text"])
+    for i, c in enumerate(t):
+        if c in "<&" or (c == ">" and var != 3) or (c in "\"'" and var == 3):
+            # a bare ampersand followed by a blank is unambiguous text (variant 3 leaves it alone)
+            out.append("&" if (var == 3 and c == "&" and t[i + 1:i + 2] == " ") else _ref(c, var))
         else:
-            plain = ['%s="%s"' % (a["n"], html.escape(a["v"], quote=True)) for a in nd["atts"]]
-            tal = ['%s="%s"' % (n, html.escape(v, quote=True)) for n, v in (render_cmd(c, exprs) for c in nd["tal"])]
-            atts = (tal + plain) if len(tal) % 2 else (plain + tal)     # TAL attributes before or after the plain ones
-            out.append("<" + " ".join([nd["tag"]] + atts) + ">")
-            if nd["tag"] not in void:
-                out.append(render_nodes(nd["kids"], exprs, void))
-                out.append("</%s>" % nd["tag"])
+            out.append(c)
     return "".join(out)
 
 
-def render_template(tree, void=PINNED_VOID):
+def _att(n, v, var):
+    if var == 0:
+        return '%s="%s"' % (n, html.escape(v, quote=True))
+    if var == 1:
+        return "%s='%s'" % (n, "".join(_ref(c, 1) if c in "<>&'" else c for c in v))
+    if var == 2:
+        return '%s="%s"' % (n.upper(), "".join(_ref(c, 2) if c in '<>&"' else c for c in v))
+    if v and all(c.isalnum() for c in v):
+        return "%s=%s" % (n, v)
+    return '%s = "%s"' % (n, "".join(_ref(c, 3) if c in '<>&"' else c for c in v))
+
+
+def render_nodes(nodes, exprs, void, var=0):
+    out = []
+    for nd in nodes:
+        if nd["k"] == "text":
+            out.append(_text(nd["text"], var))
+        elif nd["k"] == "raw":
+            out.append(nd["text"])
+        else:
+            plain = [_att(a["n"], a["v"], var) for a in nd["atts"]]
+            tal = ['%s="%s"' % (n, html.escape(v, quote=True)) for n, v in (render_cmd(c, exprs) for c in nd["tal"])]
+            atts = (tal + plain) if len(tal) % 2 else (plain + tal)     # TAL attributes before or after the plain ones
+            tag = nd["tag"].upper() if var == 2 else nd["tag"]
+            is_void = nd["tag"] in void
+            close = " />" if (var == 2 and is_void) else (" >" if var == 3 and atts else ">")
+            out.append("<" + (" " if var != 3 else "  ").join([tag] + atts) + close)
+            if not is_void:
+                out.append(render_nodes(nd["kids"], exprs, void, var))
+                out.append("</%s>" % tag)
+    return "".join(out)
+
+
+def render_template(tree, void=PINNED_VOID, var=0):
     exprs = {}
-    return render_nodes(tree, exprs, void), exprs
+    return render_nodes(tree, exprs, void, var), exprs
 
 
 # ---- alpha: the compiled program ------------------------------------------------------------------------------
@@ -354,6 +391,9 @@ def snapshot(ctx):
             "g": [{"n": k, "v": g[k]} for k in sorted(g)],
             "builtins": sorted(k for k in ctx.globals if k in BUILTINS),
             "repeat_is_rm": ctx.globals.get("repeat") is ctx.repeatMap}
+
+
+EMPTY_SNAP = {"l": [], "nls": 0, "nrs": 0, "rm": [], "g": [], "builtins": [], "repeat_is_rm": True}
 
 
 # ---- alpha: independent tokenizer of the output ------------------------------------------------------------------
@@ -476,14 +516,15 @@ class Canary:
 def run_case(case, contexts, consts, want_tokens=False, second=False):
     """compile + expand the case with the real simpleTAL; returns the trace record (init, events)."""
     simpleTAL, simpleTALES = st_modules()
-    text, exprs = render_template(case["tree"], consts["VoidTags"])
-    init = {"tree": case["tree"], "ctx": case["ctx"], "py": bool(case["py"]), "fam": case.get("fam", "")}
+    text, exprs = render_template(case["tree"], consts["VoidTags"], case.get("var", 0))
+    init = {"tree": case["tree"], "ctx": case["ctx"], "py": bool(case["py"]), "fam": case.get("fam", ""),
+            "var": case.get("var", 0), "kind": "direct"}
     try:
         template = simpleTAL.compileHTMLTemplate(text)
     except Exception as e:                       # the grammar only produces well-formed templates
-        init.update(prog=[], symt=[], macros=[], before=None, compiled=False)
+        init.update(prog=[], symt=[], macros=[], before=EMPTY_SNAP, compiled=False)
         return {"text": text, "init": init, "events": [], "final": {"ev": "end", "raised": "compile:" + type(e).__name__,
-                "doc": "", "cdoc": "", "toks": [], "after": None, "canary": 0, "nsteps": 0}}
+                "doc": "", "cdoc": "", "doc2": "", "toks": [], "after": EMPTY_SNAP, "canary": 0, "nsteps": 0}}
     prog, symt, macros = abstract_program(template, exprs, consts)
     can = Canary()
     ctx = build_context(case, template, contexts, can.hit)
@@ -499,7 +540,15 @@ def run_case(case, contexts, consts, want_tokens=False, second=False):
         raised = type(e).__name__
     doc = out.getvalue()
     toks = tokenize(doc)
-    final = {"ev": "end", "raised": raised, "doc": doc, "cdoc": canonical(toks), "toks": toks if want_tokens else [],
+    doc2 = ""
+    if second and not raised:                   # expand the result once more (Idempotent)
+        try:
+            o2 = io.StringIO()
+            simpleTAL.compileHTMLTemplate(doc).expand(build_context(case, template, contexts, can.hit), o2)
+            doc2 = o2.getvalue()
+        except Exception as e:
+            doc2 = "raised:" + type(e).__name__
+    final = {"ev": "end", "raised": raised, "doc": doc, "cdoc": canonical(toks), "doc2": doc2, "toks": toks if want_tokens else [],
              "after": snapshot(ctx), "canary": can.n, "nsteps": len(events)}
     init.update(prog=prog, symt=symt, macros=macros, before=before, compiled=True)
     return {"text": text, "init": init, "events": events, "final": final}
@@ -508,3 +557,12 @@ def run_case(case, contexts, consts, want_tokens=False, second=False):
 def _init_tracer(tr, ctx, out):
     tr.initialise(ctx, out)
     return tr
+
+
+def pool_map(fn, items, init_fn, procs=None):
+    """fork pool (kept here so that the TAL checks do not import the server world)"""
+    import multiprocessing as mp
+    procs = procs or int(os.environ.get("VERIF_PROCS") or 16)
+    ctx = mp.get_context("fork")
+    with ctx.Pool(procs, initializer=init_fn) as pool:
+        return pool.map(fn, items, chunksize=max(1, len(items) // (procs * 8) or 1))
